@@ -301,9 +301,6 @@ impl MultiState {
                 .as_ref()
                 .map(|d| d.visual_line_count(.., width))
                 .unwrap_or_default();
-            // Track the total number of zombie lines on the screen.
-            self.zombie_lines_count += line_count;
-
             // Track the number of zombie lines that will be drawn by this call to draw.
             adjust += line_count;
 
@@ -312,8 +309,9 @@ impl MultiState {
 
         // If this draw is due to a `println`, then we need to erase all the zombie lines.
         // This is because `println` is supposed to appear above all other elements in the
-        // `MultiProgress`.
-        if extra_lines.is_some() {
+        // `MultiProgress`. The same goes for lines from `ProgressBar::println`.
+        let has_text = extra_lines.is_some() || !self.orphan_lines.is_empty();
+        if has_text {
             self.draw_target
                 .adjust_last_line_count(LineAdjust::Clear(self.zombie_lines_count));
             self.zombie_lines_count = VisualLines::default();
@@ -351,8 +349,10 @@ impl MultiState {
         }
 
         // The zombie lines were drawn for the last time, so make `DrawTarget` forget about them
-        // so they aren't cleared on next draw.
-        if extra_lines.is_none() {
+        // so they aren't cleared on next draw, and track them as zombie lines on the screen.
+        // (Only now: a rate limited draw returns early above and reaps nothing.)
+        if !has_text {
+            self.zombie_lines_count = self.zombie_lines_count.saturating_add(adjust);
             self.draw_target
                 .adjust_last_line_count(LineAdjust::Keep(adjust));
         }
